@@ -92,6 +92,11 @@ type authObs struct {
 	StoreKeysBefore  int                 `json:"store_keys_before,omitempty"`
 	StoreKeysAfter   int                 `json:"store_keys_after,omitempty"`
 	ClearsLogin      bool                `json:"clears_login,omitempty"`
+	// behaviour of the pushed-authorization endpoint during this login (PAR configurations only)
+	ParMode         string   `json:"par_mode,omitempty"`         // what the driver arranged
+	ParReplies      []string `json:"par_replies,omitempty"`      // what the endpoint answered to each attempt that reached it ("ok" or the fault)
+	ParIssued       []string `json:"par_issued,omitempty"`       // the request_uri of every 2xx JSON answer ("" where the answer had none)
+	BackCredentials []string `json:"back_credentials,omitempty"` // client assertions sent over the back channel in this attempt
 }
 
 type assertionObs struct {
@@ -127,6 +132,7 @@ type atoms struct {
 	rnd                    int
 	nonce, state, verifier string
 	secret                 string
+	challenge              string // S256 challenge, where the verifier itself is not known (a login that failed at the PAR step)
 }
 
 func (a atoms) sym(v string) string {
@@ -138,6 +144,8 @@ func (a atoms) sym(v string) string {
 	case a.verifier != "" && v == a.verifier:
 		return fmt.Sprintf("r%d", a.rnd+2)
 	case a.verifier != "" && v == s256(a.verifier):
+		return fmt.Sprintf("h%d", a.rnd+2)
+	case a.challenge != "" && v == a.challenge:
 		return fmt.Sprintf("h%d", a.rnd+2)
 	case a.secret != "" && v == a.secret:
 		return "x"
@@ -229,7 +237,43 @@ type loginResultA struct {
 	parURI string
 }
 
+// parModes are the behaviours of the pushed-authorization endpoint in the login lattice: healthy; 4xx with a JSON / a text body;
+// 5xx once (absorbed by the retry) and twice; 5xx for the whole retry budget (5 s on the fake clock); a 201 whose body does not
+// decode; a 201 JSON answer without request_uri; a connection that is accepted but never answered (the client's 10 s timeout
+// fires on the fake clock); connection refused.
+var parModes = []string{"ok", "4xx", "4xxtext", "5xx-once", "5xx-twice", "5xx", "bad201", "nouri", "hang", "refused"}
+
+func (r *authRun) arrangePar(mode string) (undo func()) {
+	idp := r.s.idp
+	switch mode {
+	case "4xx", "4xxtext", "5xx", "bad201", "nouri", "hang":
+		idp.setSticky("/par", mode)
+	case "5xx-once", "5xx-twice":
+		q := []string{"5xx"}
+		if mode == "5xx-twice" {
+			q = []string{"5xx", "5xx"}
+		}
+		idp.mu.Lock()
+		idp.modeQueue = q
+		idp.mu.Unlock()
+	case "refused":
+		r.s.net.setDown("idp:80", true)
+	}
+	return func() {
+		idp.setSticky("/par", "")
+		idp.mu.Lock()
+		idp.nextMode, idp.modeQueue = "", nil
+		idp.mu.Unlock()
+		r.s.net.setDown("idp:80", false)
+	}
+}
+
 func (r *authRun) login(host, xfh, path string, q url.Values, emit bool) loginResultA {
+	return r.loginPar(host, xfh, path, q, emit, "ok")
+}
+
+// loginPar issues the login request while the PAR endpoint behaves as parMode says.
+func (r *authRun) loginPar(host, xfh, path string, q url.Values, emit bool, parMode string) loginResultA {
 	target := "http://" + host + path
 	if host == "" {
 		target = "http://placeholder" + path
@@ -247,13 +291,82 @@ func (r *authRun) login(host, xfh, path string, q url.Values, emit bool) loginRe
 	r.s.idp.mu.Lock()
 	logLen := len(r.s.idp.log)
 	r.s.idp.mu.Unlock()
+	undo := r.arrangePar(parMode)
 	rec := r.s.serveMain(req)
+	undo()
 	res := loginResultA{}
 	a := atoms{rnd: r.rnd, secret: r.s.cfg.OpenID.ClientSecret}
 	line := fmt.Sprintf("alogin %s | %s %s %s %s %s %s", r.c.line(), hx(host), hx(xfh), hx(req.URL.Path), hx(q.Get("level")), hx(q.Get("locale")), hx(q.Get("prompt")))
 	o := authObs{Kind: "login", Status: rec.Code, Host: host, XFH: xfh, Browser: browserVisible(rec)}
 	for _, i := range r.c.ingresses {
 		o.Ingresses = append(o.Ingresses, i[0]+"://"+i[1]+i[2])
+	}
+	// what reached the PAR endpoint during this request, and what it answered
+	var pars []idpLogEntry
+	r.s.idp.mu.Lock()
+	for _, e := range r.s.idp.log[logLen:] {
+		if e.Kind == "par" {
+			pars = append(pars, e)
+		}
+	}
+	r.s.idp.mu.Unlock()
+	var replies []string
+	for _, e := range pars {
+		switch e.Mode {
+		case "":
+			replies = append(replies, "k:s"+hx(e.Reply))
+			o.ParReplies = append(o.ParReplies, "ok")
+			o.ParIssued = append(o.ParIssued, e.Reply)
+		case "nouri":
+			replies = append(replies, "k:s-")
+			o.ParReplies = append(o.ParReplies, e.Mode)
+			o.ParIssued = append(o.ParIssued, "")
+		case "5xx":
+			replies = append(replies, "e")
+			o.ParReplies = append(o.ParReplies, e.Mode)
+		case "4xx", "4xxtext":
+			replies = append(replies, "c")
+			o.ParReplies = append(o.ParReplies, e.Mode)
+		case "bad201", "badjson":
+			replies = append(replies, "m")
+			o.ParReplies = append(o.ParReplies, e.Mode)
+		case "hang":
+			replies = append(replies, "t")
+			o.ParReplies = append(o.ParReplies, e.Mode)
+		default:
+			replies = append(replies, "?"+e.Mode)
+		}
+		if ca := e.Form["client_assertion"]; ca != "" {
+			o.BackCredentials = append(o.BackCredentials, ca)
+		}
+	}
+	if len(pars) == 0 && parMode == "refused" && r.c.opts.par {
+		replies = append(replies, "u")
+	}
+	repTok := "-"
+	if len(replies) > 0 {
+		repTok = strings.Join(replies, ",")
+	}
+	if r.c.opts.par {
+		o.ParMode = parMode
+	}
+	backOf := func(a atoms) string {
+		if len(pars) == 0 {
+			return "-"
+		}
+		var l []string
+		for _, e := range pars {
+			l = append(l, "par["+symParams(a, e.Form)+"]")
+		}
+		return strings.Join(l, "+")
+	}
+	// one client assertion serves all attempts of one exchange: verify it once per distinct value
+	seenCA := map[string]bool{}
+	for _, e := range pars {
+		if ca := e.Form["client_assertion"]; ca != "" && !seenCA[ca] {
+			seenCA[ca] = true
+			o.Assertions = append(o.Assertions, checkAssertion(ca))
+		}
 	}
 	var impl string
 	if rec.Code == http.StatusFound {
@@ -265,21 +378,14 @@ func (r *authRun) login(host, xfh, path string, q url.Values, emit bool) loginRe
 		}
 		a.nonce, a.state, a.verifier = f["nonce"], f["state"], f["code_verifier"]
 		res = loginResultA{ok: true, atoms: a, cookie: lc, fields: f, params: loc.Query()}
-		back := "-"
-		r.s.idp.mu.Lock()
-		for _, e := range r.s.idp.log[logLen:] {
-			if e.Kind == "par" {
-				back = "par[" + symParams(a, e.Form) + "]"
+		for _, e := range pars {
+			if e.Mode == "" || e.Mode == "nouri" { // the parameters of the authorization request are the ones the endpoint took (2xx JSON answer)
 				res.params = url.Values{}
 				for k, v := range e.Form {
 					res.params.Set(k, v)
 				}
-				if ca := e.Form["client_assertion"]; ca != "" {
-					o.Assertions = append(o.Assertions, checkAssertion(ca))
-				}
 			}
 		}
-		r.s.idp.mu.Unlock()
 		res.parURI = loc.Query().Get("request_uri")
 		fl := []string{}
 		for k, v := range f {
@@ -290,16 +396,26 @@ func (r *authRun) login(host, xfh, path string, q url.Values, emit bool) loginRe
 		if r.c.opts.par && !r.c.opts.useSecret {
 			next++
 		}
-		impl = fmt.Sprintf("ok=1 browser=%s back=%s cookie=enc:1:%s rnd=%d", symParams(a, valuesMap(loc.Query())), back, strings.Join(fl, ","), next)
-		line += fmt.Sprintf(" | %d %s %s", r.rnd, "s"+hx(f["referer"]), "s"+hx(res.parURI))
+		impl = fmt.Sprintf("ok=1 browser=%s back=%s cookie=enc:1:%s rnd=%d", symParams(a, valuesMap(loc.Query())), backOf(a), strings.Join(fl, ","), next)
+		line += fmt.Sprintf(" | %d %s %s", r.rnd, "s"+hx(f["referer"]), repTok)
 		r.rnd = next
 		o.State, o.Nonce, o.Verifier, o.RedirectURI, o.Params = a.state, a.nonce, a.verifier, res.params.Get("redirect_uri"), valuesMap(res.params)
 		if loc.Scheme+"://"+loc.Host+loc.Path != idpIssuer+"/authorize" {
 			o.Case = "location-not-authorization-endpoint:" + rec.Header().Get("Location")
 		}
 	} else {
-		impl = fmt.Sprintf("ok=0 browser=- back=- cookie=none rnd=%d", r.rnd)
-		line += fmt.Sprintf(" | %d s- s-", r.rnd)
+		// no authorization request. The values drawn for it are visible only in what was posted to the PAR endpoint, if anything
+		// was; the generator counter is not observable (both sides print rnd=- for a failed login).
+		if len(pars) > 0 {
+			a.nonce, a.state, a.challenge = pars[0].Form["nonce"], pars[0].Form["state"], pars[0].Form["code_challenge"]
+			next := r.rnd + 3
+			if !r.c.opts.useSecret {
+				next++
+			}
+			defer func() { r.rnd = next }()
+		}
+		impl = fmt.Sprintf("ok=0 browser=- back=%s cookie=none rnd=-", backOf(a))
+		line += fmt.Sprintf(" | %d s- %s", r.rnd, repTok)
 	}
 	if emit {
 		fmt.Fprintln(r.win, line)
@@ -680,7 +796,11 @@ func runAuth(args []string) error {
 							if rng.Intn(6) == 0 {
 								r.logout(host, strings.Replace(path, "/login", "/logout", 1), pick(rng, "", "/after"), true)
 							} else {
-								r.login(host, xfh, path, q, true)
+								mode := "ok"
+								if c.opts.par && rng.Intn(2) == 0 {
+									mode = parModes[1+rng.Intn(len(parModes)-1)]
+								}
+								r.loginPar(host, xfh, path, q, true, mode)
 							}
 						}
 						r.logscan()
